@@ -31,7 +31,14 @@
    Named deviation of the code from the reference that the property does not forbid:
      CaretInHead  the code also accepts `^` as a bareword character in the command head
                   (parse.ExprCtx doc: "unquoted <>*^"); the reference lists `<`, `>`, `*`.
-   Unspecified: \uHHHH / \UHHHHHHHH naming a surrogate or a value above U+10FFFF (field u). *)
+   Unspecified (field u; both outcomes accepted when a text is given to the real parser; a text
+   produced by a quoting function must be ok, never u):
+     - \uHHHH / \UHHHHHHHH naming a surrogate or a value above U+10FFFF;
+     - a text that is not well-formed UTF-8 ("source code must be Unicode text encoded in UTF-8");
+     - after `$`, a text starting with the explode sigil `@`.
+   ResolutionUnspecified(name, ctx, special): how a command head / variable name is *resolved* is not
+   the subject of C03: names containing `:` (namespace-qualified), starting with `@` or, in command
+   position, naming a special command are judged at the lexical and parser level only. *)
 EXTENDS Integers, Sequences
 
 Str(v)  == [ok |-> TRUE, v |-> v, u |-> FALSE]
@@ -176,10 +183,18 @@ Kind(t) == IF t = <<>> THEN "none"
 
 Denote(ctx, t, P) ==
   IF t = <<>> THEN Invalid
-  ELSE IF ~ValidUTF8(t) THEN Invalid               \* source code must be UTF-8
+  ELSE IF ~ValidUTF8(t) THEN Unspec                \* "source code must be UTF-8": no behaviour stated
+  ELSE IF ctx = "var" /\ t[1] = 64 THEN Unspec     \* `$@name` explodes; what "the name" is then is open
   ELSE IF t[1] = 39 THEN Whole(t, SQBody(t, 2, <<>>))
   ELSE IF t[1] = 34 THEN Whole(t, DQBody(t, 2, <<>>))
   ELSE IF BarewordOK(ctx, t, P) THEN Str(t) ELSE Invalid
+
+Has(t, b) == \E i \in 1..Len(t) : t[i] = b
+ResolutionUnspecified(name, ctx, special) ==
+  /\ ctx \in {"cmd", "var"}
+  /\ \/ Has(name, 58)
+     \/ (IF name = <<>> THEN FALSE ELSE name[1] = 64)
+     \/ (ctx = "cmd" /\ special)
 
 (* ------------------------------ code-shaped quoting ------------------------------ *)
 HexDigit(d) == IF d <= 9 THEN 48 + d ELSE 87 + d
